@@ -96,6 +96,8 @@ def generate(rng, index, cfg):
         flags += ["--output-strategy", rng.choice(OUT_STRATS)]
     if rng.random() < 0.15:
         flags += ["--no-ignore-transients"]
+    if rng.random() < 0.12:
+        flags += ["--log-level", rng.choice(["DEBUG", "DEBUG", "ERROR"])]
     out = "inplace" if entry == "driver" else rng.choice(["file_absent", "file_existing", "file_existing", "stdout"])
     decisions = entry == "nbmerge" and rng.random() < 0.15
     sc = {"entry": entry, "shape": shape, "triple": triple, "flags": flags, "out": out, "decisions": decisions,
@@ -296,6 +298,12 @@ def one_pass(sc, plan, line_total=None, count_lines=False, scratch=None):
         try:
             simout = fs.open(stdout_path, "w", encoding="utf8")
             sys.stdout = simout
+            # nbdime.prettyprint binds sys.stdout when it is imported (default argument and DefaultConfig); in a real
+            # process that is the very stream the merged notebook is printed to
+            pp.DefaultConfig.out = simout
+            d = pp.PrettyPrintConfig.__init__.__defaults__
+            if d and hasattr(d[0], "write"):
+                pp.PrettyPrintConfig.__init__.__defaults__ = (simout,) + tuple(d[1:])
             sys.stderr = sink
             rc = main(argv)
             normal_return = True
